@@ -68,7 +68,7 @@ func VerifC04Resolve() {
 			}
 		}
 	}
-	w.s.Yield = func(string) { zzverif.Yield() }
+	w.s.Yield = zzverif.YieldAt
 	nf := 0
 	maxf := zzverif.Param("faults", 1)
 	w.s.FaultAt = func(kind string, n int) zzmodel.Fault {
